@@ -369,13 +369,23 @@ func clone(parts []any) []any { return append([]any{}, parts...) }
 
 // Proof step: runs Merklizer.Proof and the C02 oracles; member = the path's key is a stored key.
 func (e *Env) Proof(s *Scen, pk int, parts []any, family string) {
-	parts = clone(parts)
-	e.Rep.Evaluations++
-	e.Rep.Count("proof:" + family)
-	p, err := s.path(pk, parts)
+	p, err := s.path(pk, clone(parts))
 	if err != nil {
 		return
 	}
+	e.ProofPath(s, pk, p, family)
+}
+
+// ProofPath: the same for a Path object produced by any API (pk names it, see PathObjKeyStep).
+func (e *Env) ProofPath(s *Scen, pk int, p merklize.Path, family string) {
+	parts := clone(p.Parts())
+	for _, x := range parts {
+		if i, ok := x.(int); ok && i < 0 {
+			return
+		}
+	}
+	e.Rep.Evaluations++
+	e.Rep.Count("proof:" + family)
 	key, kerr := p.MtEntry()
 	proof, val, perr := s.Mz.Proof(context.Background(), p)
 	var scen any = s.In
@@ -1084,6 +1094,15 @@ func (e *Env) c02Scenario(in Input) *Scen {
 			}
 		}
 	}
+	// paths the merklizer resolves from the document itself
+	for _, dp := range in.DocPaths {
+		if p, err := s.Mz.ResolveDocPath(dp); err == nil {
+			e.ProofPath(s, 5, p, "resolved-doc-path")
+		}
+		if p, err := s.Mz.Options().NewPathFromDocument(in.Doc, dp); err == nil && e.Cfg.Rng.Intn(2) == 0 {
+			e.ProofPath(s, 4, p, "resolved-doc-path")
+		}
+	}
 	// the empty path: its key cannot be computed
 	if e.Cfg.Rng.Intn(4) == 0 {
 		e.Proof(s, 0, []any{}, "empty")
@@ -1219,6 +1238,11 @@ func Run(cfg *common.Config) (*common.Report, error) {
 		in := Input{Doc: doc.Bytes, Ctx: ctxFor(doc.Bytes, all), Hasher: hi, Cfg: i%3 != 0, DSLevel: i%4 == 1, RngSeed: cfg.Rng.Int63()}
 		if !in.Cfg {
 			in.Hasher = 0
+		}
+		for li, lf := range doc.Leaves {
+			if li < 5 {
+				in.DocPaths = append(in.DocPaths, strings.Join(lf.DocPath, "."))
+			}
 		}
 		rep.Distinct(fmt.Sprintf("%s|%d|%v", doc.Bytes, in.Hasher, in.Cfg))
 		for f := range doc.Features {
